@@ -52,7 +52,7 @@ def enum_arg(b, op):
 def r1_parse_sites(cx):
     F = cx.F
     n_crc = 0
-    for f in F.fns:
+    for f in F.live_fns:
         if "blocks" not in f:
             continue
         b = None
@@ -103,7 +103,7 @@ def r1_parse_sites(cx):
             if call_is(t, r"Source>::cut$") and not f.get("impl_trait", "").endswith("Source"):
                 cx.ob("R1", "R1/Source.cut-caller@%s" % f["name"], f["name"].endswith("Reader::cut_source"), f, "Source::cut is only called from Reader::cut_source", ln=t.get("ln"))
     # get_slice(.., BlockCheck::X) outside Source impls: Crc32 never needed there; None only on verified / raw-content receivers
-    for f in F.fns:
+    for f in F.live_fns:
         if "blocks" not in f or f.get("impl_trait", "").endswith("io::Source"):
             continue
         b = None
@@ -346,7 +346,7 @@ def r3_the_check(cx):
 def r4_writer(cx):
     F = cx.F
     n = 0
-    for f in F.fns:
+    for f in F.live_fns:
         if "blocks" not in f:
             continue
         b = None
